@@ -127,6 +127,9 @@ class H5DataSet:
                 del self.dataset.attrs[name]
         else:
             if isinstance(value, str):
+                # plain text, whatever subclass of str it arrives in (h5py
+                # has no conversion for numpy.str_ and other subclasses)
+                value = str(value)
                 # h5py removes the previous value before it finds out that
                 # the new text cannot be stored
                 util.check_text_storable(value)
